@@ -2,7 +2,7 @@
    (Model/Host.v: Host::parse with any IDNA function, Display for Host): the two premises of rt_bracket -
    the text is bracketed, Host::parse inverts Display (C09) - hold for every IPv6 address. *)
 From RU Require Import Base.Prelude Base.Utf8 Gen.Tables Model.HostT Model.Host Model.UrlRecord Model.Parser Model.Origin
-  Spec.WhatwgHost Proofs.C09_V6 Proofs.C09_Wf Proofs.C09_Host Proofs.C16_Conc Proofs.C16_Origin Proofs.ListN Proofs.C16_RT Proofs.C16_RT6.
+  Spec.WhatwgHost Proofs.C09_V6 Proofs.C09_Wf Proofs.C09_Host Proofs.C16_Conc Proofs.C16_Origin Proofs.ListN Proofs.C16_RT Proofs.C16_RT6 Proofs.C16_RTParsed.
 
 Lemma lower_hex_v6c c : is_lower_hex c = true -> v6c c = true.
 Proof. unfold is_lower_hex, is_digit, v6c. cbn [memb]. lia. Qed.
@@ -174,4 +174,46 @@ Proof.
   destruct (model_host_text idna OK input h Hh) as ([Hpl|Hbr] & Hfmt & Hrt).
   - exact (proj1 (rt_plain dbg (Host.host_parse idna) ho Host.host_display (fun d => d) s h p H5 Hp Hpl Hfmt Hrt HB)).
   - exact (proj1 (rt_bracket dbg (Host.host_parse idna) ho Host.host_display (fun d => d) s h p H5 Hp Hbr Hfmt Hrt HB)).
+Qed.
+
+(* ---------- origins of parse results, host model ---------- *)
+(* the ASCII half of the round trip of the property, for the parser model with the host model: the origin o
+   of ANY parse result, if a tuple, serializes to a text that parses to a URL whose origin is o *)
+Definition rt_parsed_model_stmt : Prop :=
+  forall dbg idna ho input u c o c',
+    IdnaOK idna ->
+    url_parse dbg (Host.host_parse idna) ho Host.host_display input = POk u ->
+    url_origin dbg (Host.host_parse idna) ho Host.host_display c u = OOk o c' -> is_tuple o = true ->
+    nlen (ascii_serialization Host.host_display o) < U32_MAX_P ->
+    exists w, url_parse dbg (Host.host_parse idna) ho Host.host_display (ascii_serialization Host.host_display o) = POk w
+              /\ url_origin dbg (Host.host_parse idna) ho Host.host_display c' w = OOk o c'.
+
+Theorem rt_parsed_model : rt_parsed_model_stmt.
+Proof.
+  intros dbg idna ho input u c o c' OK Hu Ho Ht HB.
+  apply (rt_parsed dbg (Host.host_parse idna) ho Host.host_display (fun d => eq_refl) input u c o c'); try assumption.
+  intros t h Hh. exact (model_host_text idna OK t h Hh).
+Qed.
+
+(* IdnaOK is satisfiable: the identity on ASCII strings without denied characters *)
+Definition clean_char (c : N) : bool := (c <? 128) && negb (memb c T_HOST_IDNA_DENIED).
+Definition idna_clean (bs : list N) : option (list N) := if forallb clean_char bs then Some bs else None.
+
+Lemma digit_dot_clean_sweep : all_below 128 (fun c => negb (is_digit c || (c =? 46)) || clean_char c) = true.
+Proof. vm_compute. reflexivity. Qed.
+
+Example idna_clean_ok : IdnaOK idna_clean.
+Proof.
+  constructor.
+  - intros bs d H. unfold idna_clean in H. destruct (forallb clean_char bs) eqn:E; inversion H; subst.
+    apply Forall_forall. intros c Hc. rewrite forallb_forall in E. apply E in Hc.
+    unfold clean_char in Hc. unfold dom_char_ok. apply andb_true_iff in Hc. destruct Hc as [H1 H2].
+    split; [lia|]. destruct (memb c T_HOST_IDNA_DENIED); [discriminate|reflexivity].
+  - intros bs d H. unfold idna_clean in *. destruct (forallb clean_char bs) eqn:E; inversion H; subst. now rewrite E.
+  - intros a Ha. unfold idna_clean. destruct (ipv4_display_digits a Ha) as (Hd & _).
+    replace (forallb clean_char (ipv4_display a)) with true; [reflexivity|]. symmetry.
+    apply forallb_forall. intros c Hc. rewrite Forall_forall in Hd. specialize (Hd c Hc).
+    assert (c < 128) as L by (destruct Hd as [Hd| ->]; [unfold is_digit in Hd|]; lia).
+    pose proof (all_below_spec 128 _ digit_dot_clean_sweep c L) as S. cbv beta in S.
+    destruct Hd as [Hd| ->]; [rewrite Hd in S; exact S|exact S].
 Qed.
